@@ -60,15 +60,9 @@ fn valid(rng: &mut Rng, w: &World) -> String {
     }
 }
 
+/// Guards of open findings in hostile statements: none at present (D18a, D18f and D35 were repaired).
 pub fn guards() -> Vec<String> {
-    [
-        "division_or_modulo_by_zero",   // D18a types/core.rs:185/195
-        "nesting_deeper_than_200",      // D18f stack overflow (ramps stay at <= 200 levels)
-        "insert_select_from_same_table", // D35
-    ]
-    .iter()
-    .map(|s| s.to_string())
-    .collect()
+    vec![]
 }
 
 pub fn chaos_sql(rng: &mut Rng, w: &World, guards: &[String]) -> String {
@@ -210,10 +204,15 @@ fn chaos_once(rng: &mut Rng, w: &World) -> String {
             format!("{}{}", a.chars().take(ca).collect::<String>(), b.chars().skip(cb).collect::<String>())
         }
         5 => {
-            let n = rng.range(1, 200) as usize;
-            match rng.below(3) {
+            // depth ramps: nesting and operator chains, up to several thousand levels (fix for D18f:
+            // the parser refuses expression trees deeper than 200 levels)
+            let n = if rng.chance(30) { rng.range(200, 6000) } else { rng.range(1, 200) } as usize;
+            match rng.below(6) {
                 0 => format!("SELECT {}1{}", "(".repeat(n), ")".repeat(n)),
                 1 => format!("SELECT * FROM {} WHERE {}x0 = 1", ident(rng, w), "NOT ".repeat(n)),
+                2 => format!("SELECT * FROM {} WHERE {}", ident(rng, w), vec!["x0 = 1"; n].join(if rng.chance(50) { " AND " } else { " OR " })),
+                3 => format!("SELECT 1{} FROM {}", " + 1".repeat(n), ident(rng, w)),
+                4 => format!("SELECT * FROM {} WHERE x0 IN ({}1{})", ident(rng, w), "SELECT 1 WHERE 1 IN (".repeat(n / 20 + 1), ")".repeat(n / 20 + 1)),
                 _ => format!("SELECT {}1", "-".repeat(n)),
             }
         }
